@@ -108,6 +108,27 @@ Definition choice_merge (first : bool) (all new : list fdesc) : list fdesc :=
 Definition fname_of (f : field_name) : option name :=
   match f with FNone => None | FNamed n => Some n | FOverride => Some n_override end.
 
+(* Sequence::get_fields / Choice::get_fields over the results of the parts *)
+Fixpoint gf_seq (gf : expr -> gf_res) (ps : list expr) (all : list fdesc) : gf_res :=
+  match ps with
+  | [] => GFOk all
+  | p :: ps' =>
+    match gf p with
+    | GFOk new => gf_seq gf ps' (seq_merge all new)
+    | r => r
+    end
+  end.
+
+Fixpoint gf_choice (gf : expr -> gf_res) (cs : list expr) (first : bool) (all : list fdesc) : gf_res :=
+  match cs with
+  | [] => GFOk all
+  | c :: cs' =>
+    match gf c with
+    | GFOk new => gf_choice gf cs' false (choice_merge first all new)
+    | r => r
+    end
+  end.
+
 Fixpoint get_fields (fuel : nat) (g : grammar) (e : expr) : gf_res :=
   match fuel with
   | O => GFFuel
@@ -148,26 +169,8 @@ Fixpoint get_fields (fuel : nat) (g : grammar) (e : expr) : gf_res :=
       | Some r => gf (r_def r)
       | None => GFErr (GEIncludeNotFound n)
       end
-    | ESeq parts =>
-      (fix go (ps : list expr) (all : list fdesc) : gf_res :=
-         match ps with
-         | [] => GFOk all
-         | p :: ps' =>
-           match gf p with
-           | GFOk new => go ps' (seq_merge all new)
-           | r => r
-           end
-         end) parts []
-    | EChoice alts =>
-      (fix go (cs : list expr) (first : bool) (all : list fdesc) : gf_res :=
-         match cs with
-         | [] => GFOk all
-         | c :: cs' =>
-           match gf c with
-           | GFOk new => go cs' false (choice_merge first all new)
-           | r => r
-           end
-         end) alts true []
+    | ESeq parts => gf_seq gf parts []
+    | EChoice alts => gf_choice gf alts true []
     end
   end.
 
